@@ -50,7 +50,7 @@ func TestVerifBoundedTextRoundTrip(t *testing.T) {
 	thorough := os.Getenv("VERIF_TIER") == "thorough"
 	sets := map[string][]string{
 		"dom":  {"example.com", "UPPER.Example.COM", `a\054b.example.com`, "xn--bcher-kva.example", "."},
-		"wdom": {"www.example.com", "*.wild.example.com", "Mixed.Case.example.com"},
+		"wdom": {"www.example.com", "*.wild.example.com", "Mixed.Case.example.com", `\052.esc.example.com`, `*\056dot.example.com`},
 		"host": {"ns1.example.net", "a.b.c.d.example.org."},
 		"ip":   {"", "1.2.3.4", "2001:db8::1"},
 		"ip4":  {"1.2.3.4", "255.255.255.255"},
